@@ -13,8 +13,9 @@ def run(ctx):
                 "unfiltered JSON snapshot and with the model; oracle: conservation after the drain on the implementation's "
                 "own numbers, topic message_count/message_bytes = acknowledged, no negative number")
     ctx.assumptions += [
-        "client_counters / nonneg: atomic model (no FIN split around a Channel.Empty); the split schedule is the known "
-        "finding inflight-negative-after-empty (theorem nonneg_full_false), replayed with the hook on every run",
+        "client_counters (all five counters exact): atomic model; in_flight_count exact and non-negative over ALL schedules "
+        "(FIN and pump micro-steps, theorems inflight_exact_full / nonneg_full, fix F13); the former F8 schedule is "
+        "replayed with the hook on every run (corpus/C13/fixed/f8_fin_empty.ops)",
         "0 <= max-rdy-count",
         "quiescent moments only (the property says so): GetStats reads the counters one after the other",
     ]
